@@ -244,3 +244,18 @@ fn extract_middle_bases(vec_variants: &[VariantInfo], k_graph: usize) -> (Vec<St
 
     (vec_middles, last_kmer)
 }
+
+/// Add-only verification hooks: wrappers of the private helpers.
+#[cfg(feature = "verif-hooks")]
+pub mod verif_hooks {
+    use crate::skalo::utils::{DnaSequence, VariantInfo};
+
+    /// `extract_middle_bases` on plain sequences
+    pub fn extract_middle_bases(seqs: &[String], k_graph: usize) -> (Vec<String>, String) {
+        let v: Vec<VariantInfo> = seqs
+            .iter()
+            .map(|s| VariantInfo::new(DnaSequence::encode(s), Vec::new()))
+            .collect();
+        super::extract_middle_bases(&v, k_graph)
+    }
+}
